@@ -2536,7 +2536,7 @@ theorem rowName_hyps : (∀ t ∈ rowNameTg.tiers, NoKwLong t) ∧ (∀ t ∈ ro
     simp only [texts, List.map_nil, List.mem_cons, List.not_mem_nil, or_false] at hs
     subst hs; decide
 
-/-- **a name LINE that reads like the tier's span row, regression for A33 (fixed, d9005cc)**: the first line of the written name
+/-- **a name LINE that reads like the tier's span row, regression for A33 (fixed, c86c7a5)**: the first line of the written name
 row `name = "xmin = 1⏎b"` ends in `xmin = 1`; the reader now looks for the tier's `xmin` / `xmax` rows BEHIND the name
 (`header[nameMatch.end(1):]`), and the whole-file theorem — which has no hypothesis on names beyond the A10 keywords any more —
 covers the file: the tier comes back with start `0`.  Before the fix the rows were searched from the top of the tier header and
